@@ -5,6 +5,7 @@ import (
 	"fmt"
 	"net"
 	"strings"
+	"sync"
 	"time"
 
 	tally "github.com/uber-go/tally/v4"
@@ -43,7 +44,10 @@ func runC15(c *mon.Ctx) {
 	case "reporter":
 		c.Cases(func(i int, r *mon.Rand) { c15Reporter(c, r) })
 	case "duplex":
-		c.Cases(func(i int, r *mon.Rand) { c15Duplex(c, r) })
+		c.Cases(func(i int, r *mon.Rand) {
+			c15Duplex(c, r)
+			c15TwoWriters(c, r.Fork(3))
+		})
 	default:
 		c.Cases(func(i int, r *mon.Rand) {
 			c15Random(c, r.Fork(1))
@@ -832,4 +836,98 @@ func c15Duplex(c *mon.Ctx, r *mon.Rand) {
 		}
 	}
 	c.Distinct(mon.Hash64(fmt.Sprint(desc, r.U64())))
+}
+
+// c15TwoWriters: two writers, each with a multi-destination transport of its
+// own behind the byte-wise adapter the thrift protocols put in front of it
+// (RichTransport), write single bytes at the same time. Each destination
+// receives exactly its own writer's bytes.
+func c15TwoWriters(c *mon.Ctx, r *mon.Rand) {
+	stopW := c.Watchdog(120*time.Second, "transport-call-does-not-return", "two concurrent writers")
+	defer stopW()
+	type writer struct {
+		sinks []*mon.Sink
+		tr    *thriftudp.TMultiUDPTransport
+		want  [][]byte
+	}
+	var ws [2]*writer
+	for i := range ws {
+		w := &writer{}
+		var addrs []string
+		for k, n := 0, r.Range(1, 2); k < n; k++ {
+			s, err := mon.NewSink()
+			if err != nil {
+				c.Inconclusive("sink: " + err.Error())
+				return
+			}
+			defer s.Close()
+			w.sinks = append(w.sinks, s)
+			addrs = append(addrs, s.Addr())
+		}
+		tr, err := thriftudp.NewTMultiUDPClientTransport(addrs, "")
+		if err != nil {
+			c.Inconclusive("multi transport: " + err.Error())
+			return
+		}
+		w.tr = tr
+		ws[i] = w
+	}
+	c.Eval(1)
+	nMsg, per := r.Range(5, 30), r.Range(50, 600)
+	desc := map[string]interface{}{"scenario": "two writers, one multi-destination transport each, byte-wise writes", "messages_per_writer": nMsg, "bytes_per_message": per}
+	var wg sync.WaitGroup
+	start := make(chan struct{})
+	for i, w := range ws {
+		wg.Add(1)
+		go func(i int, w *writer) {
+			defer wg.Done()
+			rt := thrift.NewTRichTransport(w.tr)
+			<-start
+			c.Guard("panic-transport", func() interface{} { return desc }, func() {
+				for m := 0; m < nMsg; m++ {
+					msg := make([]byte, per)
+					for k := range msg {
+						msg[k] = byte(0x10 + 0x80*i + (m+k)%100) // writer 0: 0x10-0x73, writer 1: 0x90-0xf3
+						if err := rt.WriteByte(msg[k]); err != nil {
+							c.Violation("multi-write-error", map[string]interface{}{"why": err.Error(), "case": desc})
+							return
+						}
+					}
+					if err := rt.Flush(); err != nil {
+						c.Violation("multi-flush-error", map[string]interface{}{"why": err.Error(), "case": desc})
+					}
+					w.want = append(w.want, msg)
+				}
+			})
+		}(i, w)
+	}
+	close(start)
+	wg.Wait()
+	for i, w := range ws {
+		for si, s := range w.sinks {
+			if !s.WaitFor(len(w.want), 10*time.Second) && s.Drops() != 0 {
+				c.Inconclusive("kernel dropped datagrams at the sink")
+				return
+			}
+			s.Settle(300 * time.Microsecond)
+			got := s.Datagrams()
+			same := len(got) == len(w.want)
+			for k := 0; same && k < len(got); k++ {
+				same = bytes.Equal(got[k], w.want[k])
+			}
+			if !same {
+				foreign := 0
+				for _, d := range got {
+					for _, b := range d {
+						if (b >= 0x80) != (i == 1) {
+							foreign++
+						}
+					}
+				}
+				c.Violation("multi-destination-differs", map[string]interface{}{"why": fmt.Sprintf("destination %d of writer %d received %d datagrams that are not the %d messages written (bytes that belong to the other writer: %d)", si, i, len(got), len(w.want), foreign), "case": desc})
+			}
+			c.Event("two-writer-datagrams-compared", int64(len(got)))
+		}
+		w.tr.Close()
+	}
 }
